@@ -50,6 +50,11 @@ def run(pid, tier, seed, res, seeds_extra=None, only=None):
         dict(kind="exec", run_debug=True, target=[["id", "n0"]], exclude=None, root=None, in_hypothesis=True),
         dict(kind="exec", run_debug=True, target=[["id", "n0"], ["id", "n1"]], exclude=None, root=None, in_hypothesis=True),
         dict(kind="exec", run_debug=False, target=None, exclude=[["id", "n1"]], root=None, in_hypothesis=True)]))
+    # priorities beyond 2**53 that differ by one (exact integer comparison, no float rounding)
+    cases.append(dict(kind="graph", n=4, edges=[[2, 3]], prios=[2 ** 53, 2 ** 53 + 1, 2 ** 60 + 2, -(2 ** 60) - 3], debug=[], setup=[], tags={}, consts={}, queries=[
+        dict(kind="call", run_debug=False, target=None, exclude=None, root=None, in_hypothesis=True)]))
+    cases.append(dict(kind="graph", n=3, edges=[], prios=[2 ** 53 + 1, 2 ** 53 + 2, 2 ** 53], debug=[], setup=[], tags={}, consts={}, queries=[
+        dict(kind="call", run_debug=False, target=None, exclude=None, root=None, in_hypothesis=True)]))
     # a compound priority of exactly 0 next to a non-zero own priority (n0: 6 + (-6)), competitors in between
     cases.append(dict(kind="graph", n=4, edges=[[0, 1]], prios=[6, -6, 3, -2], debug=[], setup=[], tags={}, consts={}, queries=[
         dict(kind="call", run_debug=False, target=None, exclude=None, root=None, in_hypothesis=True)]))
